@@ -51,11 +51,11 @@ static int c10_max_held;		/* scope bound on received-but-unreleased messages (0 
 static uint8_t *c10_base;		/* start of the caller's memory */
 static int c10_is_static;
 
-#define OP_CLAIM 0
-#define OP_RECEIVE 1
-#define OP_RELEASE 2
-#define OP_REINIT 3			/* messageq_init again on the live (used) descriptor, same arguments */
-#define OP_SEND0 4			/* OP_SEND0+k: send the k-th oldest claimed-unsent message */
+#define C10_OP_CLAIM 0
+#define C10_OP_RECEIVE 1
+#define C10_OP_RELEASE 2
+#define C10_OP_REINIT 3			/* messageq_init again on the live (used) descriptor, same arguments */
+#define C10_OP_SEND0 4			/* C10_OP_SEND0+k: send the k-th oldest claimed-unsent message */
 static int c10_nops;
 static uint64_t c10_exercised[5], c10_null_claims, c10_null_receives;
 
@@ -105,7 +105,7 @@ static int c10_kth_claimed(int k)
 {
 	/* slots are claimed in cyclic order: walking forward from the claim cursor visits them oldest first */
 	for (int j = 0; j < c10_D; j++) {
-		int s = (c10_L.c + j) % c10_D;
+		int s = c10_L.c + j; if (s >= c10_D) s -= c10_D;
 		if (c10_L.status[s] == C10_CLAIMED && k-- == 0) return s;
 	}
 	return -1;
@@ -114,6 +114,25 @@ static uint8_t c10_pat(int slot, int i) { return (uint8_t)(0xA0 + slot * 7 + i *
 /* payload bytes that are written and checked: all of a small message, both ends of a large one */
 #define C10_PAYLOAD_IDX(i, M) ((M) <= 16 ? (i) : (i) < 4 ? (i) : (M) - 8 + (i))
 #define C10_PAYLOAD_N(M) ((M) <= 16 ? (M) : 8)
+/* the same bytes, laid out per slot once per configuration (c10_setup) so that they move and compare in two chunks */
+static uint8_t c10_pats[C10_MAXD][16];
+static const uint8_t c10_zero16[16];
+static void c10_pats_init(void)
+{
+	for (int q = 0; q < c10_D; q++) for (int j = 0; j < C10_PAYLOAD_N(c10_M); j++) c10_pats[q][j] = c10_pat(q, C10_PAYLOAD_IDX(j, c10_M));
+}
+static inline void c10_put(int q, const uint8_t *img)	/* img: c10_pats[q] (owned) or c10_zero16 (free) */
+{
+	uint8_t *p = c10_base + (size_t)q * c10_M;
+	if (c10_M <= 16) memcpy(p, img, (size_t)c10_M);
+	else { memcpy(p, img, 4); memcpy(p + c10_M - 4, img + 4, 4); }
+}
+static inline int c10_payload_intact(int q)
+{
+	const uint8_t *p = c10_base + (size_t)q * c10_M;
+	if (c10_M <= 16) return 0 == memcmp(p, c10_pats[q], (size_t)c10_M);
+	return 0 == memcmp(p, c10_pats[q], 4) && 0 == memcmp(p + c10_M - 4, c10_pats[q] + 4, 4);
+}
 
 __attribute__((format(printf, 2, 3)))
 static void c10_fail(const char *clause, const char *fmt, ...)
@@ -128,19 +147,19 @@ static void c10_fail(const char *clause, const char *fmt, ...)
 
 static int c10_enabled(int op)
 {
-	if (op == OP_CLAIM) return !c10_max_unsent || c10_count(C10_CLAIMED) < c10_max_unsent;
-	if (op == OP_RECEIVE) return !c10_max_held || c10_count(C10_HELD) < c10_max_held || c10_L.status[c10_L.r] != C10_SENT;
-	if (op == OP_RELEASE) return c10_count(C10_HELD) > 0;
-	if (op == OP_REINIT) return 1;
-	return c10_kth_claimed(op - OP_SEND0) >= 0;
+	if (op == C10_OP_CLAIM) return !c10_max_unsent || c10_count(C10_CLAIMED) < c10_max_unsent;
+	if (op == C10_OP_RECEIVE) return !c10_max_held || c10_count(C10_HELD) < c10_max_held || c10_L.status[c10_L.r] != C10_SENT;
+	if (op == C10_OP_RELEASE) return c10_count(C10_HELD) > 0;
+	if (op == C10_OP_REINIT) return 1;
+	return c10_kth_claimed(op - C10_OP_SEND0) >= 0;
 }
 static void c10_describe(int op, vx_sb *sb)
 {
-	if (op == OP_CLAIM) vx_sb_printf(sb, "claim");
-	else if (op == OP_RECEIVE) vx_sb_printf(sb, "receive");
-	else if (op == OP_RELEASE) vx_sb_printf(sb, "release");
-	else if (op == OP_REINIT) vx_sb_printf(sb, "init-again");
-	else vx_sb_printf(sb, "send#%d", op - OP_SEND0);
+	if (op == C10_OP_CLAIM) vx_sb_printf(sb, "claim");
+	else if (op == C10_OP_RECEIVE) vx_sb_printf(sb, "receive");
+	else if (op == C10_OP_RELEASE) vx_sb_printf(sb, "release");
+	else if (op == C10_OP_REINIT) vx_sb_printf(sb, "init-again");
+	else vx_sb_printf(sb, "send#%d", op - C10_OP_SEND0);
 }
 /* slot number of a returned pointer; -1 NULL; <= -2: not a multiple of msg_len inside the storage (encodes the offset) */
 static long c10_slot_of(void *p)
@@ -156,7 +175,8 @@ static int c10_all(const uint8_t *p, size_t n, uint8_t v) { return n == 0 || (p[
 static int c10_check_memory(int whole_slack)
 {
 	size_t used = (size_t)c10_D * (size_t)c10_M;
-	for (int i = 0; i < 64; i++) if (c10_base[-64 + i] != 0xC5) { c10_fail("guard", "byte %d before the storage was modified", i - 64); return 1; }
+	if (!c10_all(c10_base - 64, 64, 0xC5))
+		for (int i = 0; i < 64; i++) if (c10_base[-64 + i] != 0xC5) { c10_fail("guard", "byte %d before the storage was modified", i - 64); return 1; }
 	/* the slack: all of it when it is small or when asked for (end of a sweep case), both ends otherwise */
 	if (c10_S <= 32 || whole_slack) {
 		if (!c10_all(c10_base + used, (size_t)c10_S, 0x5C))
@@ -164,10 +184,10 @@ static int c10_check_memory(int whole_slack)
 	} else {
 		for (int j = 0; j < 32; j++) { int i = j < 16 ? j : c10_S - 32 + j; if (c10_base[used + i] != 0x5C) { c10_fail("slack", "trailing byte %d (not part of a whole message) was modified", i); return 1; } }
 	}
-	if (c10_is_static)
+	if (c10_is_static && !c10_all(c10_base + used + c10_S, 64, 0xC5))
 		for (int i = 0; i < 64; i++) if (c10_base[used + c10_S + i] != 0xC5) { c10_fail("guard", "byte %d after the storage was modified", i); return 1; }
 	/* payload of every owned (claimed/sent/held) slot must be what its owner wrote */
-	for (int s = 0; s < c10_D; s++) if (c10_L.status[s] != C10_FREE)
+	for (int s = 0; s < c10_D; s++) if (c10_L.status[s] != C10_FREE && !c10_payload_intact(s))
 		for (int j = 0; j < C10_PAYLOAD_N(c10_M); j++) {
 			int i = C10_PAYLOAD_IDX(j, c10_M);
 			if (c10_base[(size_t)s * c10_M + i] != c10_pat(s, i)) { c10_fail("payload", "payload byte %d of slot %d changed while owned", i, s); return 1; }
@@ -181,23 +201,20 @@ static int c10_apply(int op)
 {
 	void *p = NULL; long s; int exp, k = -1; bool e = false;
 	/* the storage is not part of the snapshot: rebuild it from the model (owned slots carry their pattern) */
-	for (int q = 0; q < c10_D; q++) for (int j = 0; j < C10_PAYLOAD_N(c10_M); j++) {
-		int i = C10_PAYLOAD_IDX(j, c10_M);
-		c10_base[(size_t)q * c10_M + i] = c10_L.status[q] != C10_FREE ? c10_pat(q, i) : 0;
-	}
-	if (op >= OP_SEND0) k = c10_kth_claimed(op - OP_SEND0);
-	c10_exercised[op >= OP_SEND0 ? 4 : op]++;
+	for (int q = 0; q < c10_D; q++) c10_put(q, c10_L.status[q] != C10_FREE ? c10_pats[q] : c10_zero16);
+	if (op >= C10_OP_SEND0) k = c10_kth_claimed(op - C10_OP_SEND0);
+	c10_exercised[op >= C10_OP_SEND0 ? 4 : op]++;
 	/* only calls into the library between VX_TRY and VX_END; everything is judged afterwards */
 	if (VX_TRY) {
-		if (op == OP_CLAIM) p = messageq_claim(c10_Q);
-		else if (op == OP_RECEIVE) p = messageq_receive(c10_Q);
-		else if (op == OP_RELEASE) messageq_release(c10_Q, c10_base + (size_t)c10_L.h * c10_M);
-		else if (op == OP_REINIT) messageq_init(c10_Q, c10_base, (size_t)c10_D * c10_M + c10_S, (size_t)c10_M);
+		if (op == C10_OP_CLAIM) p = messageq_claim(c10_Q);
+		else if (op == C10_OP_RECEIVE) p = messageq_receive(c10_Q);
+		else if (op == C10_OP_RELEASE) messageq_release(c10_Q, c10_base + (size_t)c10_L.h * c10_M);
+		else if (op == C10_OP_REINIT) messageq_init(c10_Q, c10_base, (size_t)c10_D * c10_M + c10_S, (size_t)c10_M);
 		else messageq_send(c10_Q, c10_base + (size_t)k * c10_M);
 		e = messageq_empty(c10_Q);
 		VX_END;
 	} else { VX_END; c10_fail("fault", "%s", vx_fault_msg); return 1; }
-	if (op == OP_CLAIM) {
+	if (op == C10_OP_CLAIM) {
 		s = c10_slot_of(p);
 		int nfree = c10_count(C10_FREE);
 		if (!c10_L.started && s >= 0) { c10_L.c = c10_L.r = c10_L.h = (uint8_t)s; c10_L.started = 1; }	/* any buffer may be the first */
@@ -212,21 +229,21 @@ static int c10_apply(int op)
 		if (exp >= 0) {
 			if (c10_L.status[exp] != C10_FREE) { c10_fail("claim-dup", "claim handed out slot %d which is still owned", exp); return 1; }
 			c10_L.status[exp] = C10_CLAIMED; c10_L.c = (uint8_t)((c10_L.c + 1) % c10_D);
-			for (int j = 0; j < C10_PAYLOAD_N(c10_M); j++) { int i = C10_PAYLOAD_IDX(j, c10_M); c10_base[(size_t)exp * c10_M + i] = c10_pat(exp, i); }
+			c10_put(exp, c10_pats[exp]);
 		}
-	} else if (op == OP_RECEIVE) {
+	} else if (op == C10_OP_RECEIVE) {
 		s = c10_slot_of(p);
 		exp = c10_L.status[c10_L.r] == C10_SENT ? c10_L.r : -1;
 		if (exp < 0) c10_null_receives++;
 		if (s != exp) { c10_fail("receive", "receive returned slot code %ld, expected %d (claim order, only once the oldest claimed message is sent)", s, exp); return 1; }
 		if (exp >= 0) { c10_L.status[exp] = C10_HELD; c10_L.r = (uint8_t)((c10_L.r + 1) % c10_D); }
-	} else if (op == OP_RELEASE) {
-		for (int j = 0; j < C10_PAYLOAD_N(c10_M); j++) c10_base[(size_t)c10_L.h * c10_M + C10_PAYLOAD_IDX(j, c10_M)] = 0;
+	} else if (op == C10_OP_RELEASE) {
+		c10_put(c10_L.h, c10_zero16);
 		c10_L.status[c10_L.h] = C10_FREE; c10_L.h = (uint8_t)((c10_L.h + 1) % c10_D);
-	} else if (op == OP_REINIT) {
+	} else if (op == C10_OP_REINIT) {
 		/* whatever was outstanding is dropped by its owner: a fresh queue on the same storage */
 		c10_model_reset();
-		for (int q = 0; q < c10_D; q++) for (int j = 0; j < C10_PAYLOAD_N(c10_M); j++) c10_base[(size_t)q * c10_M + C10_PAYLOAD_IDX(j, c10_M)] = 0;
+		for (int q = 0; q < c10_D; q++) c10_put(q, c10_zero16);
 	} else {
 		c10_L.status[k] = C10_SENT;
 	}
@@ -294,6 +311,7 @@ static int c10_setup(const c10_cfg *c)
 	size_t used = (size_t)c10_D * (size_t)c10_M;
 	c10_model_reset();
 	vx_lib_reset();
+	c10_pats_init();
 	if (c->is_static) {
 		c10_base = C10_STATIC_BASE;
 		memset(c10_base - 64, 0xC5, 64); memset(c10_base + used + c10_S, 0xC5, 64);
@@ -318,15 +336,15 @@ static int c10_setup(const c10_cfg *c)
 			return 1;
 		}
 	}
-	if (unrestricted) { c10_max_unsent = 0; c10_max_held = 0; c10_nops = OP_SEND0 + c10_D; }
+	if (unrestricted) { c10_max_unsent = 0; c10_max_held = 0; c10_nops = C10_OP_SEND0 + c10_D; }
 	else if (vx_thorough()) {
-		if (c10_D <= 7) { c10_max_unsent = 0; c10_max_held = 0; c10_nops = OP_SEND0 + c10_D; }
-		else if (c10_D <= 16) { c10_max_unsent = 4; c10_max_held = 0; c10_nops = OP_SEND0 + 4; }
-		else { c10_max_unsent = 3; c10_max_held = 5; c10_nops = OP_SEND0 + 3; }
+		if (c10_D <= 7) { c10_max_unsent = 0; c10_max_held = 0; c10_nops = C10_OP_SEND0 + c10_D; }
+		else if (c10_D <= 16) { c10_max_unsent = 4; c10_max_held = 0; c10_nops = C10_OP_SEND0 + 4; }
+		else { c10_max_unsent = 3; c10_max_held = 5; c10_nops = C10_OP_SEND0 + 3; }
 	} else {
-		if (c10_D <= 5) { c10_max_unsent = 0; c10_max_held = 0; c10_nops = OP_SEND0 + c10_D; }
-		else if (c10_D <= 12) { c10_max_unsent = 3; c10_max_held = 0; c10_nops = OP_SEND0 + 3; }
-		else { c10_max_unsent = 2; c10_max_held = 3; c10_nops = OP_SEND0 + 2; }
+		if (c10_D <= 5) { c10_max_unsent = 0; c10_max_held = 0; c10_nops = C10_OP_SEND0 + c10_D; }
+		else if (c10_D <= 12) { c10_max_unsent = 3; c10_max_held = 0; c10_nops = C10_OP_SEND0 + 3; }
+		else { c10_max_unsent = 2; c10_max_held = 3; c10_nops = C10_OP_SEND0 + 2; }
 	}
 	return 0;
 }
@@ -342,18 +360,21 @@ static int c10_script(const char *name, const char *ops)
 }
 
 /* ---- family C: real cycles. One cycle = claim; send; receive; release on a quiescent queue. */
+#define C10_STR2(x) #x
+#define C10_STR(x) C10_STR2(x)
+#define C10_CYCLE_OPS "ops=0 " C10_STR(C10_OP_SEND0) " 1 2"	/* claim; send#0; receive; release */
 static uint64_t c10_cyc;		/* cycles completed (a global: the library calls are opaque, so it is current at a fault) */
 static uint64_t c10_fast_total;
 
 /* cycles [from, to) on the fast path: every returned pointer and messageq_empty compared, nothing else. 0 = clean,
- * 1 = cycle number c10_cyc (0-based) misbehaved or faulted */
+ * 1 = cycle number c10_cyc (0-based) misbehaved or faulted, 2 = deadline reached */
 static int c10_fast_cycles(uint64_t from, uint64_t to)
 {
 	unsigned c = c10_L.c;
 	int bad = 0;
 	c10_cyc = from;
 	while (c10_cyc < to && !bad) {
-		if ((c10_cyc & 0xffffff) == 0 && vx_deadline_passed()) { bad = 2; break; }
+		if ((c10_cyc & 0xffffff) == 0 && !vx_args.replay && vx_deadline_passed()) { bad = 2; break; }	/* a replay runs to its end */
 		uint64_t stop = c10_cyc + 65536 < to ? c10_cyc + 65536 : to;
 		if (VX_TRY) {
 			while (c10_cyc < stop) {
@@ -381,7 +402,7 @@ static int c10_cycles_from_start(const char *name, uint64_t n)
 {
 	c10_cyc = 0;
 	if (n == 0) return 0;
-	if (c10_script(name, "ops=0 4 1 2")) return 1;
+	if (c10_script(name, C10_CYCLE_OPS)) return 1;
 	return c10_fast_cycles(1, n);
 }
 /* the fast path saw cycle number `at` misbehave: reproduce it through the full oracle, which reports it with a history */
@@ -392,11 +413,13 @@ static void c10_pin(const c10_cfg *c0, uint64_t at)
 	c.pre = at;
 	c10_cfg_name(&c, name, sizeof(name));
 	if (c10_setup(&c)) return;
-	if (c10_cycles_from_start(name, at)) {
+	int r = c10_cycles_from_start(name, at);
+	if (r == 2) { vx_and("exhaustive", 0); vx_note("deadline reached while reproducing a failed cycle on the full oracle"); return; }
+	if (r) {
 		if (vx_viol_total == before) c10_config_violation("cycles-irreproducible", name, "a cycle that was clean failed when repeated");
 		return;
 	}
-	if (c10_script(name, "ops=0 4 1 2") != 1)
+	if (c10_script(name, C10_CYCLE_OPS) != 1)
 		c10_config_violation("cycles-fast-path-only", name, "the fast path rejected a cycle the full oracle accepts");
 }
 
@@ -405,7 +428,7 @@ static void c10_pin(const c10_cfg *c0, uint64_t at)
  * exhaustive): states per search; once this worker has a counterexample, or two of its searches did not converge, it
  * does not pour more time into state spaces that an ever-growing counter keeps inflating */
 static int c10_capped_searches;
-static uint64_t c10_max_states(void) { return vx_nviols ? 300000 : vx_thorough() ? 24000000 : 1000000; }
+static uint64_t c10_max_states(void) { return vx_nviols ? 300000 : vx_thorough() ? 8000000 : 1000000; }
 static int c10_no_more_searches(void)
 {
 	if (c10_capped_searches < 2) return 0;
@@ -449,8 +472,8 @@ static void c10_counter_starts(const c10_cfg *c)
 	uint64_t marks[16]; int nm = 0;
 	char name[96], base_name[96];
 	for (unsigned i = 0; i < C10_LEN(quick_n); i++) marks[nm++] = quick_n[i];
-	/* 2^32 real cycles take minutes: thorough tier, the smallest depth that does not divide a power of two and the largest odd one */
-	if (vx_thorough() && (c->d == 3 || c->d == 31)) for (unsigned i = 0; i < C10_LEN(deep_n); i++) marks[nm++] = deep_n[i];
+	/* 2^32 real cycles take minutes: thorough tier, the smallest depth that does not divide a power of two */
+	if (vx_thorough() && c->d == 3) for (unsigned i = 0; i < C10_LEN(deep_n); i++) marks[nm++] = deep_n[i];
 	vx_set base_seen = c10_b.seen;		/* keep the visited set of the search from the fresh queue */
 	memset(&c10_b.seen, 0, sizeof(c10_b.seen));
 	vx_store_free(&c10_b.st);
@@ -470,7 +493,7 @@ static void c10_counter_starts(const c10_cfg *c)
 		done = marks[k];
 		vx_count("counter_start_states", 1);
 		if (vx_deadline_passed()) { vx_and("exhaustive", 0); vx_count("counter_starts_skipped_deadline", (uint64_t)(nm - k - 1)); break; }
-		if (vx_set_has(&base_seen, c10_hash_now())) { vx_count("counter_start_states_already_visited", 1); continue; }
+		if (base_seen.t && vx_set_has(&base_seen, c10_hash_now())) { vx_count("counter_start_states_already_visited", 1); continue; }
 		if (c10_no_more_searches()) continue;
 		/* an image the search from the fresh queue never produced: search from here */
 		c10_cfg cc = *c; cc.pre = done;
@@ -497,11 +520,11 @@ static const char *c10_sweep_ops(int d)
 	vx_sb sb = {0};
 	vx_sb_printf(&sb, "ops=");
 	for (int i = 0; i <= d; i++) vx_sb_printf(&sb, "0 ");				/* fill; one claim too many */
-	for (int i = 0; i < d; i++) vx_sb_printf(&sb, "%d 1 1 ", OP_SEND0);		/* send oldest, receive it, receive nothing */
+	for (int i = 0; i < d; i++) vx_sb_printf(&sb, "%d 1 1 ", C10_OP_SEND0);		/* send oldest, receive it, receive nothing */
 	for (int i = 0; i < d; i++) vx_sb_printf(&sb, "2 ");				/* release all */
-	vx_sb_printf(&sb, "0 %d 1 2 ", OP_SEND0);					/* one cycle: cursors move on by one */
+	vx_sb_printf(&sb, "0 %d 1 2 ", C10_OP_SEND0);					/* one cycle: cursors move on by one */
 	for (int i = 0; i < d; i++) vx_sb_printf(&sb, "0 ");				/* fill across the wrap */
-	for (int i = d - 1; i >= 0; i--) vx_sb_printf(&sb, "%d ", OP_SEND0 + i);	/* send newest first */
+	for (int i = d - 1; i >= 0; i--) vx_sb_printf(&sb, "%d ", C10_OP_SEND0 + i);	/* send newest first */
 	for (int i = 0; i <= d; i++) vx_sb_printf(&sb, "1 ");				/* receive all; one too many */
 	for (int i = 0; i < d; i++) vx_sb_printf(&sb, "2 ");
 	return cache[d] = sb.s;
@@ -680,11 +703,14 @@ int main(int argc, char **argv)
 					vx_bfs_free(&c10_b);
 				}
 				c10_b.seen = seen0;
-				if (g->m == 4 && g->s == 1 && !c10_stop()) c10_counter_starts(&c);
-				else vx_set_free(&c10_b.seen);
-				memset(&c10_b.seen, 0, sizeof(c10_b.seen));
 			}
 		}
+		/* family C: with the visited set of the search just made, or with none (then every cycle is still compared) */
+		if (g->m == 4 && g->s == 1 && c10_geom_selected(g) && !c10_stop() && !vx_deadline_passed()) {
+			c10_cfg c = { g->d, g->m, g->s, 0, 0, 0 };
+			c10_counter_starts(&c);
+		} else vx_set_free(&c10_b.seen);
+		memset(&c10_b.seen, 0, sizeof(c10_b.seen));
 		c10_twins_of((int)i, selected, st0, tr0, fix0);
 	}
 	if (!c10_stop()) c10_sweep(&unit);
